@@ -1808,6 +1808,18 @@ package rtcp
 //@   ensures unchanged: unchanged
 //@   ensures repeatable: repeatable
 
+//@ func lemmaStringTotal(p Packet) (n int)
+//@   lemma
+//@   trusted
+//@   bounded[C17] genStringifyArg
+//@   ensures returns: n >= 0
+
+//@ func lemmaStringDecoded(raw []byte) (n int, err error)
+//@   lemma
+//@   trusted
+//@   bounded[C17] genDatagram
+//@   ensures nonempty: err == nil ==> n > 0
+
 //@ func lemmaDecodePure(raw []byte) (inputUnchanged bool, repeatable bool)
 //@   lemma
 //@   trusted
